@@ -10,6 +10,7 @@ import (
 	"errors"
 	"flag"
 	"fmt"
+	"math/big"
 	"os"
 	"path/filepath"
 	"sort"
@@ -72,7 +73,6 @@ const (
 )
 
 var phName = []string{"Exec", "Prepare", "Validate", "Finalize"}
-var kName = []string{"Call", "Report", "Fail"}
 
 type Event struct {
 	Ph, Root, Who, Kind int // Who = -1: the root itself
@@ -555,12 +555,17 @@ func coqWho(w int) string {
 	return fmt.Sprintf("(Some %d)", w)
 }
 
+// coqTrace writes one number per event (decoded by Run.decode_ev):
+// ((root*256 + who)*3 + kind)*4 + phase, who = 0 for the root, identity+1 otherwise.
 func coqTrace(t []Event) string {
 	ss := make([]string, len(t))
 	for i, e := range t {
-		ss[i] = fmt.Sprintf("ev %s %d %s %s", phName[e.Ph], e.Root, coqWho(e.Who), kName[e.Kind])
+		if e.Who >= 255 {
+			panic("expression identity too large for the trace encoding")
+		}
+		ss[i] = fmt.Sprintf("%d", ((e.Root*256+e.Who+1)*3+e.Kind)*4+e.Ph)
 	}
-	return vh.CoqList(ss)
+	return "[" + strings.Join(ss, ";") + "]%N"
 }
 
 func coqIdent(i Ident) string { return fmt.Sprintf("(%d, %s)", i.Root, coqWho(i.Who)) }
@@ -846,8 +851,8 @@ func oracle(p *Program, rn *run, pre RootsObs, o Outcome) []oracleOut {
 		}
 		for _, q := range regsFinal {
 			if nwalk[q] != reached {
-				if nwalk[q] == reached-1 && late[q] {
-					fail("late-root-not-executed", "root %d, registered while the DSL ran, was walked %d times (its DSL never ran) while %d phases ran", q, nwalk[q], reached)
+				if nwalk[q] < reached && late[q] {
+					fail("late-root-not-executed", "root %d, registered while the DSL ran, was walked %d times while %d phases ran (its DSL never ran)", q, nwalk[q], reached)
 				} else {
 					fail("root-walk-count", "root %d was walked %d times while %d phases ran", q, nwalk[q], reached)
 				}
@@ -1177,7 +1182,7 @@ func corpus() []Program {
 	return []Program{
 		one([][]ExprD{{src(1, appendAct(1, src(2))), src(3)}, {src(4)}}), // later set: executed
 		late, self, two, lateCycle, errs, vfail, diamond,
-		{Stream: "corpus", Regs: []int{}, Roots: []RootD{{Deps: []int{}, Sets: [][]ExprD{{src(1)}}}}}, // nothing registered
+		{Stream: "corpus", Regs: []int{}, Roots: []RootD{{Deps: []int{}, Sets: [][]ExprD{{src(1)}}}}},                // nothing registered
 		{Stream: "corpus", Regs: []int{0, 0}, Roots: []RootD{{Deps: []int{}, Sets: [][]ExprD{{src(1)}}, Fin: true}}}, // duplicate registration
 	}
 }
@@ -1255,6 +1260,18 @@ func features(p *Program, rn *run, o Outcome) []string {
 		}
 	}
 	return f
+}
+
+// failures are recorded at most 4 times per signature so that a flood of one class
+// cannot push another class out of the result file; the totals go to the distribution
+var perSig = map[string]int{}
+
+func record(res *vh.Result, sig, what string, input any) {
+	perSig[sig]++
+	res.Dist["failures:"+sig]++
+	if perSig[sig] <= 4 {
+		res.Fail(sig, what, input)
+	}
 }
 
 func main() {
@@ -1351,7 +1368,7 @@ func main() {
 		if all {
 			// direct oracle for closed graphs
 			for _, f := range graphOracle(&p, o) {
-				res.Fail(f.sig, f.what, gc)
+				record(res, f.sig, f.what, gc)
 			}
 		}
 		res.Count(fmt.Sprintf("graph_roots=%d", gc.N))
@@ -1382,14 +1399,14 @@ func main() {
 		}
 		for g := 0; g < 1<<16; g++ {
 			deps := graphDeps(4, g)
-			cs := make([]string, len(ords))
+			cs := make([]int64, len(ords))
 			for k, o := range ords {
 				gc := GraphCase{4, deps, o}
 				p := graphProgram(gc)
 				build(&p)
 				ob := observeRoots()
 				for _, f := range graphOracle(&p, ob) {
-					res.Fail(f.sig, f.what, gc)
+					record(res, f.sig, f.what, gc)
 				}
 				c := 25
 				if ob.Cycle {
@@ -1397,10 +1414,15 @@ func main() {
 				} else if x, ok := code[fmt.Sprint(ob.Order)]; ok {
 					c = x
 				}
-				cs[k] = fmt.Sprint(c)
+				cs[k] = int64(c)
 				n4++
 			}
-			fmt.Fprintf(&v, "(%d%%N, %s)\n", g, vh.CoqList(cs))
+			packed := new(big.Int)
+			for k := len(cs) - 1; k >= 0; k-- {
+				packed.Mul(packed, big.NewInt(27))
+				packed.Add(packed, big.NewInt(cs[k]))
+			}
+			fmt.Fprintf(&v, "(%d%%N, %s%%N)\n", g, packed.String())
 		}
 		res.Dist["graph_roots=4"] = n4
 	}
@@ -1414,10 +1436,10 @@ func main() {
 		fmt.Fprintf(&v, "(%d%%N, %s, %s, %s, %s)\n", i, coqProgram(p), coqTrace(rn.trace), coqOutcome(o), coqRoots(pre))
 		if p.Stream != "hostile" {
 			for _, f := range oracle(p, rn, pre, o) {
-				res.Fail(f.sig, f.what, p)
+				record(res, f.sig, f.what, p)
 			}
 		} else if o.Class == "other" {
-			res.Fail("unexpected-error", "RunDSL returned an error of no expected class: "+o.Msg, p)
+			record(res, "unexpected-error", "RunDSL returned an error of no expected class: "+o.Msg, p)
 		}
 		res.Count("stream=" + p.Stream)
 		for _, f := range features(p, rn, o) {
